@@ -18,7 +18,7 @@ from harness.core import q, qlist, qmat, Case, guarded, ImplError
 from harness.props import c01
 
 PI2 = 2 * np.pi
-RULE = ('cases = (function, record, dt, periods (with/without leading 0, on both sides of 6*dt and exactly at 6*dt for dyadic dt), xi, container kind list/tuple/array, min_dt_ratio in {1,2,4,8}); true_response_spectra also with xi exactly 0 (int and float) on constant-acceleration / pulse records with T up to 40 durations; object histories: record changed between two reads, and two gen_response_spectrum calls (or a lazy read, then a call) on one object with a larger min_dt_ratio the second time and T_min/20 < dt; '
+RULE = ('cases = (function, record, dt, periods (with/without leading 0, on both sides of 6*dt and exactly at 6*dt for dyadic dt), xi, container kind list/tuple/array, min_dt_ratio in {1,2,4,8}); object history: spectra read, another period grid of the same length and end points assigned through the response_times setter, spectra read again; true_response_spectra also with xi exactly 0 (int and float) on constant-acceleration / pulse records with T up to 40 durations; object histories: record changed between two reads, and two gen_response_spectrum calls (or a lazy read, then a call) on one object with a larger min_dt_ratio the second time and T_min/20 < dt; '
         'spectra compared at 1e-13 with the Q-model applied to the implementation\'s own response_series rows; object-level: refinement factor compared exactly, interpolated record at 1e-13, '
         'spectra at 1e-13 on rows of the refined record, and S_d(object) >= S_d(raw); energy spectra at 1e-12 of the sum of absolute terms; final input energy >= 0 evaluated on outputs (known finding); '
         'non-finite outputs are violations; non-trivial = record not identically zero')
@@ -217,7 +217,7 @@ def run(rep, rng, tier):
         add(coq, site, args, nz=bool(np.any(rec != 0)), impl=[list(sd), list(sv), list(sa)])
 
     # ---- object level: AccSignal.s_d / s_v / s_a through gen_response_spectrum(min_dt_ratio)
-    for k in range(30 * N + 6 * N):
+    for k in range(30 * N + 6 * N + 5 * N):
         rec = record(80)
         dt = rng.choice([0.25, 0.125, 0.01, 0.02, 0.005])
         ratio = rng.choice([1, 2, 4, 8])
@@ -270,6 +270,27 @@ def run(rep, rng, tier):
                     'history': ['construct', what, 'gen_response_spectrum(%smin_dt_ratio=%d)' % ('xi=0.05, ' if xi_kw else '', ratio), 'read s_d, s_v, s_a'],
                     'refinement_factor_first_call': exact_factor(dt, 4 if first == 'lazy' else first, minp),
                     'refinement_factor_second_call': exact_factor(dt, ratio, minp)}
+        # the last 5*N cases: the spectra are first read for ANOTHER period grid with the same number of points and the same
+        # first and last period (log-spaced), the periods are then assigned through the response_times setter and the spectra
+        # are read again (lazily): they are those of the periods the object holds now
+        other_periods = None
+        if k >= 36 * N:
+            mutate, mode, first = False, 1, None
+            npts = rng.randint(3, 6)
+            last = base * rng.uniform(4, 30)
+            periods = [float(x) for x in np.linspace(base, last, npts)]
+            other_periods = [float(x) for x in np.geomspace(base, last, npts)]
+            other_periods[0], other_periods[-1] = periods[0], periods[-1]
+            if lead0:
+                periods, other_periods = [0.0] + periods, [0.0] + other_periods
+            if fragile_cut(periods, dt):
+                fragile += 1
+                continue
+            minp = base
+            cont = rng.choice(['array', 'list'])
+            site = 'AccSignal.s_d/s_v/s_a[read; response_times = other grid, same length and end points; read again]'
+            args = {'dt': dt, 'min_dt_ratio': 4, 'periods': periods, 'values': list(map(float, rec)), 'first_periods': other_periods, 'assigned_as': cont,
+                    'history': ['construct with response_times=first_periods', 'read s_a', 'response_times = periods', 'read s_d, s_v, s_a']}
         if mutate:
             mode, ratio = 1, 4
             site = 'AccSignal.s_d/s_v/s_a[read; %s; read again]' % how
@@ -294,6 +315,10 @@ def run(rep, rng, tier):
                 else:
                     s.add_constant(-1.0)
                     s.add_series(rec * 0.5)
+            elif other_periods is not None:
+                s = eqsig.AccSignal(rec, dt, response_times=np.array(other_periods))
+                _ = s.s_a
+                s.response_times = np.array(periods) if cont == 'array' else list(periods)
             elif first is not None:
                 s = eqsig.AccSignal(rec, dt, response_times=np.array(periods))
                 if first == 'lazy':
